@@ -23,13 +23,20 @@ CLAIMS = {
          "documented effective inputs and against the model at Float (bit-for-bit).",
          "JSON codec and echo routing are outside the model; rounding is a measured tolerance."),
  "C13": ("Theorems: sequential refinement of the /local-trust handlers to a map id -> matrix for every request history (statuses, overlay "
-         "merge with enlargement, invalid body = 400 and state unchanged, GET body = valid inline reference reproducing the matrix). "
-         "Correspondence: HTTP histories judged step by step against the model and an independent dense map.",
-         "The concurrent clause (linearizability, data races) is NOT proved: partial; only the sequential semantics is a theorem."),
- "C14": ("Theorems: stored references resolve to the same effective inputs as the inline rendering of the stored matrix (stored = inline); "
-         "the pure model cannot alias the store. Tie: storeShape fact (deep copy under the lock) regenerated from the source. "
-         "Correspondence: GET before / compute / GET after byte-identical, stored vs inline scores bit-identical, repeated computes.",
-         "Go-level aliasing (shallow copies) and data races are only exercised by the correspondence and the shape fact, not proved: partial."),
+         "merge with enlargement, invalid body = 400 and state unchanged, GET body = valid inline reference reproducing the matrix); and, for a "
+         "step-level model of the handlers (atomic sync.Map primitives + per-object locked sections, unbounded goroutines), FULL linearizability of "
+         "every concurrent history of put/merge/get/head/delete with loaded bodies (C13b.linearizable, replayed through C13.runSpec). Tie: store "
+         "primitives regenerated from the source (decide). Correspondence: HTTP histories judged step by step against the model and an "
+         "independent dense map; concurrent clients checked by porcupine against the sequential spec; direct race stress of the strict handlers.",
+         "Known finding (listed in known_findings.jsonl): a PUT whose body is a STORED reference is not atomic w.r.t. DELETE of the referenced id "
+         "(proved for the model, observed on the code). Data races are only looked for by the race-detector run of the thorough tier."),
+ "C14": ("Theorems: (pure model) computes never alter the store in any mixed history, a compute's answer is a function of the content stored under the "
+         "referenced id at that moment, stored = inline; (explicit heap model of row cells and row tables, C14b) the in-place pipeline SetDim / "
+         "ExtractDistrust / CanonicalizeLocalTrust run on a DEEP copy leaves every pre-existing cell unchanged (frame theorem, every request), refines "
+         "the pure pipeline, the aliasing of the pre-trust cell is harmless; with a SHALLOW copy a stored row is rewritten (witness). Tie: deep copy "
+         "under the lock regenerated from the source (decide). Correspondence: GET before / compute / GET after byte-identical, stored vs inline "
+         "scores bit-identical, repeated computes, computes racing with PUT?merge=true must return exactly the solo result on one version.",
+         "The heap model is not itself run against the code (only its pure refinement is); mohae/deepcopy is trusted; data races: race-detector run in the thorough tier."),
  "C04": ("Theorems: canonicalisation laws (sum 1, ratios, zero-sum error, substitution for every row position, uniform fallback), "
          "exact scale invariance of the canonicalisation pipeline, and sigma-equivariance for power-of-two scaling under explicit "
          "IEEE hypotheses. Correspondence: the three canonicalisers judged in exact rationals; scaled-vs-unscaled runs compared bitwise.",
@@ -81,7 +88,7 @@ CLAIMS = {
          "the last flush/creation, sorted, duplicate-free; timestamp = max of those updates (never lowered); response codes; created ids fresh; unknown "
          "ids NotFound; invalid updates leave the state unchanged; qword codec round trip, canonicity, injectivity for all naturals. "
          "Correspondence: call histories over bufconn judged step by step against the model and an independent dense map, multi-qword and stale timestamps.",
-         "The concurrent-clients clause is not proved (sequential histories only): partial."),
+         "The concurrent-clients clause is not proved for the gRPC services (sequential histories only; the same map primitives are proved linearizable for the OpenAPI store in C13b): concurrent clients are exercised and checked by porcupine against the sequential spec."),
  "C17": ("Theorems: BasicCompute = compute on the canonicalised effective inputs warm-started from the previous global trust, discounted; positive-only vector "
          "gets the undiscounted scores; timestamps = max of the inputs and never lowered; local trust and every other vector unchanged; NotFound / InvalidArgument "
          "exactly characterised with state unchanged; iteration count <= max_iterations. Correspondence: histories of updates and computes over bufconn, "
